@@ -358,6 +358,30 @@ def _worker(part, tier, is_canary):
             it = [sorted(int(x) for x in b._nodes_in_view) for cell in net for b in cell]
             if it != [[c.g for c in U if c.gbranch == k] for k in range(NBR)]:
                 bad.append(f"nested iteration yields {it}")
+            # iteration in GLOBAL scope over views that do not start at global index 0 or are not contiguous: the sub-views are
+            # those of the method form for the global indices present, in ascending order (seeded change C11_g)
+            for xname, mk, xo, level in (("net.scope('global').cell(1).branches", lambda: net.scope("global").cell(1).branches, [c for c in U if c.cell == 1], "branch"),
+                                         ("net.scope('global').cell([0,2]).cells", lambda: net.scope("global").cell([0, 2]).cells, [c for c in U if c.cell in (0, 2)], "cell"),
+                                         ("net.scope('global').cell(2).comps", lambda: net.scope("global").cell(2).comps, [c for c in U if c.cell == 2], "comp"),
+                                         ("net.scope('global').cell([0,2]).branches", lambda: net.scope("global").cell([0, 2]).branches, [c for c in U if c.cell in (0, 2)], "branch")):
+                keyf = {"cell": lambda c: c.cell, "branch": lambda c: c.gbranch, "comp": lambda c: c.g}[level]
+                want = [sorted(c.g for c in xo if keyf(c) == k) for k in sorted({keyf(c) for c in xo})]
+                try:
+                    it = [sorted(int(x) for x in v._nodes_in_view) for v in mk()]
+                except Exception as e:
+                    it = f"raised {type(e).__name__}: {str(e)[:60]}"
+                out["evals"] += 1
+                out["cases"] += 1
+                if it != want:
+                    bad.append(f"iteration over {xname} yields {it}, the method form for the global indices present gives {want}")
+            try:
+                # (`for cell in net.scope("global")` itself raises IndexError on the unchanged tree: a scope() view has no level
+                # for __iter__; the explicit iterators are what the property names - observation recorded in DESIGN 9.4)
+                it = [sorted(int(x) for x in b._nodes_in_view) for cell in net.scope("global").cells for b in cell.branches]
+            except Exception as e:
+                it = f"raised {type(e).__name__}: {str(e)[:60]}"
+            if it != [[c.g for c in U if c.gbranch == k] for k in range(NBR)]:
+                bad.append(f"nested iteration in global scope yields {it}")
             # iteration at a level == the method form for every index present at that level (in the current scope)
             for xname, X, xo in (("net.cell(1)", net.cell(1), [c for c in U if c.cell == 1]), ("net.cell(0)", net.cell(0), [c for c in U if c.cell == 0])):
                 it = [sorted(int(x) for x in c._nodes_in_view) for c in X.comps]
